@@ -355,8 +355,12 @@ func (c *channel) reconnect(maxRetries float64) {
 			return
 		}
 		c.streamCtx, c.cancelStream = context.WithCancel(c.parentCtx)
-		c.gorumsStream, err = c.gorumsClient.NodeStream(c.streamCtx)
+		// keep the old (broken) stream if a new one cannot be created; sender and
+		// receiver may still call it, which must yield an error, not a nil dereference.
+		var stream ordering.Gorums_NodeStreamClient
+		stream, err = c.gorumsClient.NodeStream(c.streamCtx)
 		if err == nil {
+			c.gorumsStream = stream
 			c.streamBroken.clear()
 			c.streamMut.Unlock()
 			return
